@@ -992,7 +992,8 @@ func genGoMiniAll() []*leanFile {
 		clConsts)})
 	out = append(out, &leanFile{name: "GoHW", raw: genGoMini("GoHW",
 		[]string{cl + "commitlog.go"},
-		map[string][]string{cl + "commitlog.go": {"commitLog.waitForHW"}},
+		map[string][]string{cl + "commitlog.go": {"commitLog.waitForHW", "commitLog.SetHighWatermark", "commitLog.OverrideHighWatermark",
+			"commitLog.notifyHWChange", "commitLog.notifyReadonly", "commitLog.removeHWWaiter", "commitLog.SetReadonly"}},
 		clConsts)})
 	out = append(out, &leanFile{name: "GoActivity", raw: genGoMini("GoActivity",
 		[]string{sv + "activity.go"},
